@@ -12,6 +12,11 @@ FIRST = {  # result of the FIRST run of my checks against the seed, recorded whe
     "C06-3": "other property only (C03.e2, C08.f)", "C06-4": "missed", "C08-3": "missed", "C11-4": "missed", "C12-3": "missed",
     "C18-3": "other property only (C02.a, C03.g)", "C19-3": "missed", "C19-4": "missed", "C12-4": "missed", "C07-3": "missed", "C07-4": "missed", "C20-3": "missed", "C20-4": "missed",
     "C11-1": "missed", "C11-2": "missed", "C07-1": "missed", "C07-2": "missed", "C20-1": "missed", "C13-2": "missed",
+    # wave 4 (ids -5 / -6): first run = the checks as committed at the start of the session (88530b0), measured with /tmp/first_run.sh over a worktree of that commit
+    "C01-5": "exit 2 in C01 (vacuous-rule); other property (C06.a, C15.k)", "C02-5": "other property only (C01.d2, C03.h, C15.h)", "C02-6": "other property only (C08.g, C15.c, C17.f)",
+    "C03-6": "missed", "C04-5": "missed", "C05-5": "missed", "C07-5": "missed", "C07-6": "other property only (C18.f)", "C09-5": "other property only (C06.f)",
+    "C09-6": "other property only (C08.g, C15.c, C17.f)", "C10-5": "missed", "C11-5": "missed", "C12-5": "missed", "C13-6": "missed", "C14-6": "missed", "C16-5": "missed",
+    "C17-5": "other property only (C02.c, C08.g)", "C17-6": "other property only (C02.d)", "C20-5": "missed",
 }
 ADDED = {"C01-2": "C01.d fresh-only cursor", "C02-2": "C09.d/C02.h owner re-arm protocol", "C04-1": "C04.b children-before-clear", "C04-2": "C04.g accessor family",
          "C05-2": "C05.e2 ring re-base", "C14-2": "C14.f unconditional owner stop", "C16-1": "C16.b2 conflating pending flag", "C16-2": "C16.h (= C17.a table)",
@@ -27,7 +32,13 @@ ADDED = {"C01-2": "C01.d fresh-only cursor", "C02-2": "C09.d/C02.h owner re-arm 
          "C06-3": "C06.a2 whole-field comparison", "C06-4": "C06.f pass-through ordinal", "C08-3": "C08.b no stronger gate on the sink",
          "C11-4": "C11.g swap-remove bookkeeping", "C12-3": "C12.h output reset table (an earlier draft of this seed, withdrawn by its author, gave C12.g slot layout)", "C12-4": "C12.i keyword slot numbering", "C07-3": "C07.f GlobalState accumulators: recorder start erases its key on every path", "C07-4": "C07.g scope-stack pushes are owned (guard / RAII)", "C20-3": "C20.i recovery fold applies each delta at its own time", "C20-4": "C20.j list-storage copies carry the validity bitmap", "C18-3": "C18.g (C02.a shared into C18)",
          "C19-3": "C19.h match/resolve field agreement", "C19-4": "C19.i defaults counted",
-         "C20-1": "C20.d all container captures", "C13-2": "C13.k slot-id bounds (slot ids are sparse)"}
+         "C20-1": "C20.d all container captures", "C13-2": "C13.k slot-id bounds (slot ids are sparse)",
+         "C01-5": "C01.j (C06.a shared into C01); C01.c floor is a vacuity guard", "C02-5": "C02.l (C01.d2 shared into C02)", "C02-6": "C02.m (C15.c shared into C02)",
+         "C03-6": "C03.i prune-loop guard + has_any_active", "C04-5": "C05.k insertion tables / C04.l", "C05-5": "C05.l membership scans (slot_live)", "C07-5": "C07.j live-store selection agreement",
+         "C07-6": "C07.h shares C18.f", "C09-5": "C09.k (C06.f shared into C09)", "C09-6": "C09.j (C15.c shared into C09)", "C10-5": "C10.n membership scans (slot_live)",
+         "C11-5": "C11.f2 leaf containers reset / shrunk together", "C12-5": "C12.m sampling decisions test valid()", "C13-6": "C13.p modified-slot predicate = export scan during a retarget",
+         "C14-6": "C14.j lookup before active_slot.reset()", "C16-5": "C16.k stop protocol of push_source_stop", "C17-5": "C17.h (C02.c shared into C17)", "C17-6": "C17.g (C02.d shared into C17)",
+         "C20-5": "C20.m no-effect only after the modified map was tested"}
 rows = []
 for d in sorted(glob.glob("/verif/seeded/*/meta.json")):
     m = json.load(open(d))
@@ -50,10 +61,13 @@ print("|---|---|---|---|")
 print("\n".join(rows))
 n = len(rows)
 caught = sum(1 for r in rows if "| caught |" in r)
+w4 = [r for r in rows if r.split("|")[1].strip().endswith(("-5", "-6"))]
 print(f"\nTotals: {n} seeded changes kept (each confirmed by me); first run: {caught} reported by the property's own check, "
       f"{sum(1 for r in rows if 'other property only' in r)} only by another property's check, {sum(1 for r in rows if 'exit 2' in r)} analysis error (exit 2), "
       f"{sum(1 for r in rows if '| missed |' in r)} missed; now all {n} are reported by their own property's check "
-      f"({sum(1 for d in glob.glob('/verif/seeded/*/meta.json') if json.load(open(d)).get('detected_by_own_property'))} verified by tools/keep_seed.py).")
+      f"({sum(1 for d in glob.glob('/verif/seeded/*/meta.json') if json.load(open(d)).get('detected_by_own_property'))} verified by tools/keep_seed.py). "
+      f"Wave 4 alone ({len(w4)} changes, ids -5 / -6): first run {sum(1 for r in w4 if '| caught |' in r)} by the own check, "
+      f"{sum(1 for r in w4 if 'other property' in r)} only by another property's check (one of them with an exit 2 in its own), {sum(1 for r in w4 if '| missed |' in r)} missed.")
 
 txt = _out.getvalue()
 if "--write" in sys.argv:
